@@ -24,6 +24,12 @@ pub fn convert_cntrl_flow(
             )?);
 
             let valid_in_ternary = el.as_ref().map_or(false, |el| is_valid_in_ternary(then, el));
+            // a return in a branch only survives a conditional expression if that expression is
+            // returned itself
+            let returns = |branch: &ASTTy| matches!(branch.node, NodeTy::Return { .. });
+            let keeps_returns = state.is_last_must_be_ret || state.is_remove_last_ret;
+            let valid_in_ternary = valid_in_ternary
+                && (keeps_returns || !(returns(then) || el.as_ref().map_or(false, |el| returns(el))));
             if state.is_operand && !valid_in_ternary {
                 let msg = "if with blocks or without else as part of an expression";
                 return Err(Box::from(UnimplementedErr::new(ast, msg)));
